@@ -25,3 +25,20 @@ for f in files:
     s2 = re.sub(r"<<<<<<< [^\n]*\n(.*?)=======\n(.*?)>>>>>>> [^\n]*\n", repl, s, flags=re.S)
     open(f, "w").write(s2)
     print("resolved", f)
+
+# normalise lib/propmeta.py: every entry must be closed before the next one starts
+import os
+if os.path.exists("lib/propmeta.py"):
+    lines = open("lib/propmeta.py").read().split("\n")
+    out, first = [], True
+    for l in lines:
+        if re.match(r'^    "C\d+": \{', l):
+            if not first:
+                k = len(out) - 1
+                while out[k].strip() == "":
+                    k -= 1
+                if out[k] != "    },":
+                    out.append("    },")
+            first = False
+        out.append(l)
+    open("lib/propmeta.py", "w").write("\n".join(out))
